@@ -98,7 +98,7 @@ Section Balloon.
     match a_hyper_path a with
     | [] => Reject
     | _ =>
-      match hyper_root_of_proof D E V H nbits (fun p => assoc (fun x y => key_eqb (fst x) (fst y) && Nat.eqb (snd x) (snd y)) p (rev (a_hyper_path a)))
+      match hyper_root_of_proof D E V H nbits (hpath_get D (a_hyper_path a))
               (length (a_hyper_path a)) (kbits d) value with
       | None => VPanic
       | Some r => if E_eqb d (a_key a) && D_eqb r hyper_digest then Accept else Reject
